@@ -251,6 +251,50 @@ def run_e2e(sv, tier, i, n, res):
                     res.outcome('error-position-correct')
                     if count % 4001 == 0:
                         res.sample({'pattern': p, 'line': err.line, 'col': err.col, 'context': err.context})
+        # the same words as the DEFINITION of a custom selector used some way into an outer pattern: an error found while reading the definition
+        # is located in the definition's text (or, for errors about the use, in the outer pattern) - in either case inside the text it shows
+        outer = 'div > a.b :--x'
+        count = 0
+        for m in range(1, 3):
+            for w in itertools.product(LEX, repeat=m):
+                count += 1
+                if count % n != i or orig is None:
+                    continue
+                d = ''.join(w)
+                del calls[:]
+                try:
+                    with shard.deadline(10), warnings.catch_warnings():
+                        warnings.simplefilter('ignore')
+                        sv.purge()
+                        sv.compile(outer, custom={':--x': d})
+                    res.outcome('compiles')
+                    continue
+                except sv.SelectorSyntaxError as e:
+                    err = e
+                except Exception:
+                    res.outcome('other-exception(C06)')
+                    continue
+                res.evaluations += 1
+                res.nontrivial += 1
+                why = None
+                if err.line is None or err.col is None or err.context is None or not calls:
+                    why = 'the error carries no line/column/context'
+                else:
+                    pat, index = calls[-1]
+                    if pat not in (d.replace('\x00', '\ufffd'), outer):
+                        why = f'position computed in {pat!r}, which is neither the definition nor the pattern'
+                    elif not 0 <= index <= len(pat):
+                        why = f'offset {index} outside 0..{len(pat)} of the text the context shows ({pat!r})'
+                    elif inside_break(pat, index):
+                        continue
+                    else:
+                        why = judge_context(pat, index, err.context, err.line, err.col)
+                if why:
+                    res.fail({'layer': 'e2e-custom', 'pattern': outer, 'definition': d}, {'kind': 'error-position', 'multiline': len(split_lines(d)) > 1,
+                                                                                      'what': 'custom-definition:' + why.split(' ')[0]},
+                             f'compile({outer!r}, custom={{":--x": {d!r}}}) raised SelectorSyntaxError: {why}')
+                else:
+                    res.outcome('error-position-correct')
     finally:
         if orig is not None:
             sv.util.get_pattern_context = orig
@@ -505,6 +549,29 @@ def replay(case):
                     return None
                 why = judge_context(pat, index, e.context, e.line, e.col)
                 return ({'kind': 'error-position'}, why) if why else None
+        finally:
+            sv.util.get_pattern_context = orig
+    if case['layer'] == 'e2e-custom':
+        calls = []
+        orig = sv.util.get_pattern_context
+
+        def spy(pattern, index):
+            calls.append((pattern, index))
+            return orig(pattern, index)
+        sv.util.get_pattern_context = spy
+        try:
+            try:
+                sv.compile(case['pattern'], custom={':--x': case['definition']})
+                return None
+            except sv.SelectorSyntaxError as e:
+                err = e
+            if not calls:
+                return {'kind': 'error-position'}, 'no context computed'
+            pat, index = calls[-1]
+            if pat not in (case['definition'].replace('\x00', '\ufffd'), case['pattern']) or not 0 <= index <= len(pat):
+                return {'kind': 'error-position'}, f'offset {index} in {pat!r}'
+            why = judge_context(pat, index, err.context, err.line, err.col)
+            return ({'kind': 'error-position'}, why) if why else None
         finally:
             sv.util.get_pattern_context = orig
     if case['layer'] == 'debug':
